@@ -3,6 +3,7 @@ package rv
 import (
 	"fmt"
 	"regexp"
+	"sort"
 	"strings"
 )
 
@@ -14,6 +15,9 @@ type luaReturn struct {
 	Kind  string   // "return", or "call:<lower-case redis command>" for redis.call / redis.pcall
 	Sig   []string // enclosing if-blocks as "<block id>.<arm index>", outermost first
 	Loop  bool     // inside for / while / repeat
+	Loops []int    // ids of the enclosing loops, outermost first
+	Name  string   // for "local" and "assign": the variable
+	RHS   string   // for "assign" (and "local" with an initialiser): rest of the line after `=`
 }
 
 var luaRedisCall = regexp.MustCompile(`^redis\.p?call\(\s*["']([A-Za-z.]+)["']`)
@@ -81,6 +85,7 @@ func luaReturns(src string) []luaReturn {
 			}
 			if b.kind == "for" || b.kind == "while" || b.kind == "repeat" {
 				lr.Loop = true
+				lr.Loops = append(lr.Loops, b.id)
 			}
 		}
 		return lr
@@ -89,6 +94,7 @@ func luaReturns(src string) []luaReturn {
 		return c == '_' || c >= 'a' && c <= 'z' || c >= 'A' && c <= 'Z' || c >= '0' && c <= '9'
 	}
 	pendingDo := false
+	prevWord := ""
 	condStart := -1 // inside `if ... then`
 	for i := 0; i < len(src); {
 		c := src[i]
@@ -140,6 +146,16 @@ func luaReturns(src string) []luaReturn {
 				if len(stack) > 0 {
 					stack[len(stack)-1].arm++
 				}
+			case "table":
+				if strings.HasPrefix(src[j:], ".insert(") {
+					ev := mk("insert", i)
+					e := strings.IndexByte(src[j:], '\n')
+					if e < 0 {
+						e = len(src) - j
+					}
+					ev.RHS = src[j : j+e]
+					out = append(out, ev)
+				}
 			case "redis":
 				if m := luaRedisCall.FindStringSubmatch(src[i:]); m != nil {
 					out = append(out, mk("call:"+strings.ToLower(m[1]), i))
@@ -154,7 +170,8 @@ func luaReturns(src string) []luaReturn {
 					condStart = -1
 				}
 			case "for", "while":
-				stack = append(stack, blk{kind: w})
+				nextID++
+				stack = append(stack, blk{kind: w, id: nextID})
 				pendingDo = true
 			case "do":
 				if pendingDo {
@@ -163,16 +180,54 @@ func luaReturns(src string) []luaReturn {
 					stack = append(stack, blk{kind: "do"})
 				}
 			case "function", "repeat":
-				stack = append(stack, blk{kind: w})
+				nextID++
+				stack = append(stack, blk{kind: w, id: nextID})
 			case "end", "until":
 				if len(stack) > 0 {
 					stack = stack[:len(stack)-1]
 				}
 			case "return":
 				out = append(out, mk("return", i))
+			default:
+				k := j
+				for k < len(src) && (src[k] == ' ' || src[k] == '\t') {
+					k++
+				}
+				isAssign := k < len(src) && src[k] == '=' && (k+1 >= len(src) || src[k+1] != '=')
+				pc := byte(0)
+				for q := i - 1; q >= 0; q-- {
+					if src[q] != ' ' && src[q] != '\t' {
+						pc = src[q]
+						break
+					}
+				}
+				rhs := ""
+				if isAssign {
+					e := strings.IndexByte(src[k:], '\n')
+					if e < 0 {
+						e = len(src) - k
+					}
+					rhs = strings.TrimSpace(src[k+1 : k+e])
+				}
+				if prevWord == "local" {
+					ev := mk("local", i)
+					ev.Name, ev.RHS = w, rhs
+					out = append(out, ev)
+				} else if isAssign && prevWord != "for" && pc != '.' && pc != ':' && pc != '[' && pc != '~' && pc != '<' && pc != '>' {
+					ev := mk("assign", i)
+					ev.Name, ev.RHS = w, rhs
+					out = append(out, ev)
+				}
+			}
+			prevWord = w
+			if w == "local" && false {
+				prevWord = ""
 			}
 			i = j
 		default:
+			if c != ' ' && c != '\t' {
+				prevWord = ""
+			}
 			i++
 		}
 	}
@@ -189,4 +244,80 @@ func luaMentions(cond string, names []string) bool {
 		}
 	}
 	return false
+}
+
+
+// luaUnrearmedLoopState lists the variables that feed a per-item answer (they appear in a
+// table.insert inside the loop; whole-batch accumulators do not) and carry state across the iterations of a loop of the
+// script (declared before the loop, assigned inside it from their own value or under a condition
+// on their own value) and are never re-armed inside that loop: no assignment from a value that does
+// not depend on them, outside any condition on them. Answers computed per item from such a variable
+// depend on the items that precede it in the batch.
+func luaUnrearmedLoopState(src string) (carried, unrearmed []string) {
+	evs := luaReturns(src)
+	in := func(ids []int, id int) bool {
+		for _, x := range ids {
+			if x == id {
+				return true
+			}
+		}
+		return false
+	}
+	loops := map[int]bool{}
+	for _, e := range evs {
+		for _, l := range e.Loops {
+			loops[l] = true
+		}
+	}
+	for l := range loops {
+		first := -1
+		for _, e := range evs {
+			if in(e.Loops, l) && (first < 0 || e.Off < first) {
+				first = e.Off
+			}
+		}
+		seen := map[string]bool{}
+		for _, d := range evs {
+			if d.Kind != "local" || in(d.Loops, l) || d.Off > first || seen[d.Name] {
+				continue
+			}
+			seen[d.Name] = true
+			v := []string{d.Name}
+			feedsAnswer := false
+			for _, a := range evs {
+				if a.Kind == "insert" && in(a.Loops, l) && luaMentions(a.RHS, v) {
+					feedsAnswer = true
+				}
+			}
+			if !feedsAnswer {
+				continue
+			}
+			isCarried, rearmed := false, false
+			for _, a := range evs {
+				if a.Kind != "assign" || a.Name != d.Name || !in(a.Loops, l) {
+					continue
+				}
+				condOnSelf := false
+				for _, c := range a.Conds {
+					if luaMentions(c, v) {
+						condOnSelf = true
+					}
+				}
+				if luaMentions(a.RHS, v) || condOnSelf {
+					isCarried = true
+				} else {
+					rearmed = true
+				}
+			}
+			if isCarried {
+				carried = append(carried, d.Name)
+				if !rearmed {
+					unrearmed = append(unrearmed, d.Name)
+				}
+			}
+		}
+	}
+	sort.Strings(carried)
+	sort.Strings(unrearmed)
+	return
 }
